@@ -118,6 +118,14 @@ def run(spec):
         if not ready:
             return {"outcome": "harness-error", "error": "worker did not become ready"}
         waddr = worker_address(w)
+        import zmq
+        zctx = zmq.Context()
+        wsock = zctx.socket(zmq.PUSH)      # one persistent connection: the harness must not lose (or reorder) its own messages
+        wsock.setsockopt(zmq.LINGER, 10000)
+        wsock.connect(waddr)
+
+        def wsend(m):
+            wsock.send(serde.ser_message(m))
 
         def put(ds, value):
             raw, deser = serde.ser_output(value, "Any")
@@ -142,16 +150,16 @@ def run(spec):
             n_before = len([e for e in read_log(evlog) if e[1] == "seq-start"])
             for token in perm:
                 if token == "TS":
-                    comms.callback(waddr, TaskSequence(worker=w, tasks=[cid], publish={DatasetId(cid, "0")}))
+                    wsend(TaskSequence(worker=w, tasks=[cid], publish={DatasetId(cid, "0")}))
                 else:
                     i = int(token[1:])
                     ds = DatasetId(f"s{j}x{i}", "0")
                     put(ds, ref[(f"s{j}x{i}", "0")])
-                    comms.callback(waddr, DatasetPublished(origin=w, ds=ds, transmit_idx=None))
+                    wsend(DatasetPublished(origin=w, ds=ds, transmit_idx=None))
                     if rng.random() < 0.2:
-                        comms.callback(waddr, DatasetPublished(origin=w, ds=ds, transmit_idx=None))  # duplicate notice
+                        wsend(DatasetPublished(origin=w, ds=ds, transmit_idx=None))  # duplicate notice
                 if extra_purge and rng.random() < 0.5:
-                    comms.callback(waddr, DatasetPurge(ds=DatasetId("unrelated", "0")))
+                    wsend(DatasetPurge(ds=DatasetId("unrelated", "0")))
                 time.sleep(rng.choice([0, 0, 0.002, 0.01]))
             # ---- the sequence must start exactly once, with every input readable, and publish the right value -----------
             got_value = None
@@ -194,7 +202,7 @@ def run(spec):
         res["stats"]["orders"] = len(perms_seen)
         res["outcome"] = "ok"
         try:
-            comms.callback(waddr, WorkerShutdown())
+            wsend(WorkerShutdown())
         except Exception:  # noqa: BLE001
             pass
         return res
